@@ -47,8 +47,12 @@ pub fn grid(tier: Tier) -> Vec<Body> {
     }
     // the threaded generator gets eight more cells per order: each cell draws its own CPU counts and
     // schedulers from the run's seed
+    let complete_max = match tier {
+        Tier::Quick => 260,
+        Tier::Thorough => 400,
+    };
     for _ in 0..8 {
-        for order in 1..=max_order(tier) {
+        for order in 1..=complete_max {
             g.push(Body { gen: "complete".to_string(), a: order, b: 0 });
         }
     }
